@@ -1,7 +1,55 @@
 import TTV.Sexp
-/-! Driver glue for C18 — stub, replaced when the property's model is built. -/
+import TTV.Model.StreamRouter
+import TTV.Spec.C18
+import TTV.Drv.StreamCodec
+/-! Driver glue for C18.
+input = `(hasFallback fbFlag (op…))`; op = `start` | `stop` | `(prefix sink chars consume flag)` | `(id sink tid? flag)` |
+`(bad sink flag)` | `(status event)` | `(trip (chars…) event)`
+trace = `((sink sinkEv)…) (res…)`; sinkEv = `start` | `stop` | `(status event)`; res = `ok` | `(raised X)` | `(arrived event)` -/
 namespace TTV.Drv.C18
-open TTV
+open TTV TTV.Sexp TTV.Stream TTV.Stream.Router TTV.Drv.StreamCodec
 
-def handle (_ : List Sexp) : Sexp := .atom "unimplemented"
+def op? : Sexp → Option Op
+  | .atom "start" => some .start
+  | .atom "stop" => some .stop
+  | .list [.atom "prefix", s, p, c, f] => do some (.addPrefix (← nat? s) (← chars? p) (← bool? c) (← bool? f))
+  | .list [.atom "id", s, t, f] => do some (.addId (← nat? s) (← opt? nat? t) (← bool? f))
+  | .list [.atom "bad", s, f] => do some (.addBad (← nat? s) (← bool? f))
+  | .list [.atom "status", e] => (event? e).map .status
+  | .list [.atom "trip", cs, e] => do some (.roundTrip (← list? chars? cs) (← event? e))
+  | _ => none
+
+def input? : Sexp → Option Input
+  | .list [a, b, c] => do some { hasFallback := ← bool? a, fbFlag := ← bool? b, ops := ← list? op? c }
+  | _ => none
+
+def sinkEv? : Sexp → Option SinkEv
+  | .atom "start" => some .start
+  | .atom "stop" => some .stop
+  | .list [.atom "status", e] => (event? e).map .status
+  | _ => none
+def ofSinkEv : SinkEv → Sexp
+  | .start => .atom "start"
+  | .stop => .atom "stop"
+  | .status e => tag "status" [ofEvent e]
+
+def res? : Sexp → Option Res
+  | .atom "ok" => some .ok
+  | .list [.atom "raised", .atom x] => some (.raised x)
+  | .list [.atom "arrived", e] => (event? e).map .arrived
+  | _ => none
+def ofRes : Res → Sexp
+  | .ok => .atom "ok"
+  | .raised x => tag "raised" [.atom x]
+  | .arrived e => tag "arrived" [ofEvent e]
+
+def trace? : Sexp → Option Trace
+  | .list [a, b] => do some { deliveries := ← list? (pair? nat? sinkEv?) a, results := ← list? res? b }
+  | _ => none
+def ofTrace (t : Trace) : Sexp := .list [ofList (ofPair ofNat ofSinkEv) t.deliveries, ofList ofRes t.results]
+
+def drv : PropDrv Input Trace :=
+  { decI := input?, decT := trace?, encT := ofTrace, model := model, clauses := Spec.C18.clauses }
+
+def handle : List Sexp → Sexp := drv.handle
 end TTV.Drv.C18
